@@ -129,10 +129,60 @@ def run(rep, tier, seed):
             want_fields, want_payload = o_[1]
             fails = [] if out == ('OK', (tuple(want_fields), want_payload)) else ['%s parser on a CoAP message with %d options: %s' % (stack, nopt, str(out)[:120])]
             b.add('%s:coap-many-options' % stack, pc.model_line(stack, bits), out, pc.parse_model, fails, dict(layer='parser', op='parse', stack=stack, bits=bits), key=(stack, 'many', nopt, bits[:64]))
+    # the CoAP parser in SEMANTIC option mode names each option by its number (RFC 7252 table 4 and the registered extensions the library
+    # knows; 'Unknown(n)' otherwise): every option number 0..70 and a few beyond, alone in a message and after another option; the field
+    # list (identifiers, positions, values) against the extracted model of the semantic parser
+    from microschc.protocol.coap import CoAPParser, CoAPOptionMode
+    from core import Buffer, bits_of
+    from schc_util import fid_of, tb
+    from schc_run import with_timeout
+    from p_c19 import parse_model_sem
+    sem = CoAPParser(interpret_options=CoAPOptionMode.SEMANTIC)
+    for number in list(range(0, 71)) + [128, 252, 258, 259, 268, 269, 270, 292, 2048, 2049, 65000, 65535, 65536]:
+        for lead in (0, rnd.choice([1, 3, 11])):
+            if lead > number:
+                continue
+            opts = ([(lead, rnd.randint(0, 2))] if lead else []) + [(number - lead, rnd.choice([0, 1, 2, 4]))]
+            pkt, st = P.coap(rnd, opts=opts, payload=rnd.choice([None, b'', b'\x01']))
+            bits = b2s(pkt)
+            buf = Buffer(pkt, len(pkt) * 8)
+
+            def f1():
+                hd = sem.parse(buf)
+                return (tuple((fid_of(x.id), x.position, bits_of(x.value)) for x in hd.fields), hd.length)
+            o1 = with_timeout(f1)
+            fails = [] if o1[0] == 'OK' else ['semantic parse of a well-formed message with option number %d raised %s' % (number, o1[1])]
+            b.add('CoAP-semantic:option-number', 'S parsesem %s' % tb(bits), o1, parse_model_sem, fails, dict(layer='coap', op='parsesem', bits=bits, options=opts), key=('sem-number', number, lead, bits))
+    # ... and what the statement says of identifiers: the identifier of an option determines its number -- two numbers never share one, and
+    # an identifier of the 'unknown option' family carries the number it stands for
+    import re as _re
+    seen_ids = {}
+    for number in list(range(0, 300)) + [2048, 2049, 65000, 65535, 65536, 65804]:
+        dn, de = P.ext(number)
+        pkt = bytes([0x40, 1, 0, 1]) + bytes([dn << 4 | 1]) + de + b'\x07'
+        o_ = impl_outcome(lambda: [str(getattr(f.id, 'value', f.id)) for f in sem.parse(Buffer(pkt, len(pkt) * 8)).fields])
+        rep.count('CoAP-semantic:identifier-of-number', key=('sem-id', number))
+        rep.oracle_evals += 1
+        fail = None
+        if o_[0] != 'OK':
+            fail = 'raised %s' % o_[1]
+        else:
+            oid = o_[1][-1]
+            m_ = _re.search(r'unknown', oid, _re.I)
+            if m_ and not _re.search(r'\(%d\)$' % number, oid):
+                fail = 'is identified as %r, which does not say which option it is' % oid
+            elif oid in seen_ids and seen_ids[oid] != number:
+                fail = 'is identified as %r, like option number %d' % (oid, seen_ids[oid])
+            seen_ids.setdefault(oid, number)
+        if fail:
+            rep.violation('property', 'CoAP semantic mode: option number %d alone in a message %s' % (number, fail), dict(layer='coap', op='identifier', number=number, packet=pkt.hex()))
+            break
     b.run()
 
 
 def replay(case):
+    if case.get('layer') == 'coap':
+        return 're-run ./check C08 (cases are regenerated from the seed)'
     out = pc.observe(case['stack'], case['bits'])
     from core import Driver
     m = pc.parse_model(Driver().run([pc.model_line(case['stack'], case['bits'])])[0])
